@@ -604,7 +604,9 @@ class Session(AbstractSession):
 
         src_index = target.indices[:]
         src_values = target.values[:]
-        dest_index = np.zeros(src_chunksize, src_index.dtype)
+        # the first batch keeps slot 0 for the leading zero offset and writes from slot 1,
+        # so it needs one slot more than the per-batch limit (slot 1 when src_chunksize == 1)
+        dest_index = np.zeros(src_chunksize + 1, src_index.dtype)
         dest_values = np.zeros(dest_chunksize * chunksize_mult, src_values.dtype)
 
         max_index_i = src_chunksize
